@@ -834,6 +834,21 @@ def run_hammer_stream(prop, stream, tier, seed, workdir, scale=1):
             continue
         for line in p.stdout.splitlines():
             f = line.split("|")
+            if f[0] == "HM":
+                calls, m, over, worst, incons = int(f[3]), int(f[4]), int(f[5]), int(f[6]), int(f[7])
+                acc["steps"] += calls
+                acc["events"]["parallel-memory-aware-stores"] = acc["events"].get("parallel-memory-aware-stores", 0) + calls
+                acc["nontrivial"].add(hash((r, "HM", f[1])))
+                rp = [f"# hammer {seed + r} {threads} {rounds}", line]
+                if over:
+                    for pid in ("C05", "C18"):
+                        verdicts.append({"kind": "MON", "id": pid, "episode": 0, "step": 0, "raw": rp,
+                                         "text": f"MON {pid} :: after parallel memory-aware stores into {f[2]} (all callers returned) the cache held up to {worst} bytes with max_memory {m} ({over} quiescent points over the bound; free-running threads)"})
+                if incons:
+                    for pid in ("C18", "C20", "C05"):
+                        verdicts.append({"kind": "MON", "id": pid, "episode": 0, "step": 0, "raw": rp,
+                                         "text": f"MON {pid} :: after parallel memory-aware stores into {f[2]} a stored key has no queue slot (or a slot is duplicated) at {incons} quiescent points: it can never be evicted and keeps the cache over its bound"})
+                continue
             if f[0] == "HS":
                 calls, execs = int(f[3]), int(f[4])
                 acc["steps"] += calls
